@@ -13,7 +13,9 @@ open Percival.Model.Getopt Percival.Spec.Getopt
 /-- ASCII option names as bytes -/
 def b (s : String) : Str := s.toList.map (fun c => UInt8.ofNat c.toNat)
 
-/-- The switches of `harness/h_getopt.c`, line by line (index 0 = the `GETOPT_SWITCH` line). -/
+/-- The switches of `harness/h_getopt.c`, line by line (index 0 = the `GETOPT_SWITCH` line; the harness has one
+source line per label, so list positions ARE the line offsets getopt.c stores; `GETOPT_DEFAULT` is the line after
+the last entry). -/
 def tables : List (List Line) := [
   -- t0: short+long, with/without arguments, with GETOPT_MISSING_ARG
   [.blank, .opt (b "-a") false, .opt (b "-b") true, .opt (b "--foo") false, .opt (b "--bar") true, .missing],
@@ -24,7 +26,20 @@ def tables : List (List Line) := [
    .opt (b "-o") true, .opt (b "--f") true, .opt (b "-b") false, .opt (b "--fo") false],
   -- t3: '=' as a single-character option, same letter short and long, no handler
   [.blank, .opt (b "-=") false, .opt (b "-x") true, .opt (b "--x") true, .blank, .opt (b "-y") false,
-   .opt (b "--y") false]
+   .opt (b "--y") false],
+  -- t4: GETOPT_DEFAULT only (the smallest switch)
+  [.blank],
+  -- t5: small, the handler first (line offset 1)
+  [.blank, .missing, .opt (b "-b") true],
+  -- t6: small, no handler, an OPTARG label at offset 1
+  [.blank, .opt (b "--bar") true, .opt (b "-b") true],
+  -- t7: large and sparse, options of its own in the high slots, handler on the last line (offset 13)
+  [.blank, .opt (b "-a") false, .blank, .opt (b "--foo") false, .blank, .blank, .opt (b "-b") true,
+   .opt (b "--bar") true, .blank, .opt (b "-z") false, .opt (b "--zed") true, .opt (b "-q") true, .blank, .missing],
+  -- t8: the largest, no handler; labels at the offsets where other tables have their handler / default value
+  [.blank, .opt (b "-a") false, .opt (b "--foo") false, .blank, .opt (b "-q") true, .opt (b "-b") true, .blank,
+   .opt (b "--bar") true, .opt (b "-y") false, .blank, .opt (b "--zed") true, .blank, .blank, .opt (b "-z") false,
+   .blank, .opt (b "--yy") false]
 ]
 
 inductive Op where
